@@ -614,7 +614,7 @@ def run(ctx: Ctx, focus):
     """focus: which property is being decided (selects the scenario families that are run)."""
     rng = random.Random(ctx.seed + 211)
     quick = ctx.tier == "quick"
-    enum = enumerate_scenarios(ctx, 2)
+    enum = enumerate_scenarios(ctx, 2 if quick or focus in ("C01", "C02") else 3)
     ctx.note("scenarios_enumerated_by_tlc", len(enum))
 
     def fam(s):
